@@ -26,6 +26,7 @@ import (
 	"golang.org/x/sys/unix"
 
 	"github.com/panjf2000/gnet/v2/internal/gfd"
+	"github.com/panjf2000/gnet/v2/internal/vhook"
 	"github.com/panjf2000/gnet/v2/pkg/bs"
 	"github.com/panjf2000/gnet/v2/pkg/buffer/elastic"
 	errorx "github.com/panjf2000/gnet/v2/pkg/errors"
@@ -118,11 +119,13 @@ func (c *conn) release() {
 
 func (c *conn) open(buf []byte) error {
 	if c.isDatagram && c.remote == nil {
+		vhook.Sys("c.opensend", c, c.fd, len(buf), nil)
 		return unix.Send(c.fd, buf, 0)
 	}
 
 	for {
 		n, err := unix.Write(c.fd, buf)
+		vhook.Sys("c.openwrite", c, c.fd, n, err)
 		if err != nil {
 			if err == unix.EAGAIN {
 				_, _ = c.outboundBuffer.Write(buf)
@@ -160,6 +163,7 @@ func (c *conn) write(data []byte) (n int, err error) {
 	var sent int
 loop:
 	if sent, err = unix.Write(c.fd, data); err != nil {
+		vhook.Sys("c.write", c, c.fd, sent, err)
 		// A temporary error occurs, append the data to outbound buffer,
 		// writing it back to the remote in the next round for LT mode.
 		if err == unix.EAGAIN {
@@ -171,6 +175,7 @@ loop:
 		}
 		return 0, err
 	}
+	vhook.Sys("c.write", c, c.fd, sent, nil)
 	data = data[sent:]
 	if isET && len(data) > 0 {
 		goto loop
@@ -210,6 +215,7 @@ func (c *conn) writev(bs [][]byte) (n int, err error) {
 	var sent int
 loop:
 	if sent, err = gio.Writev(c.fd, bs); err != nil {
+		vhook.Sys("c.writev", c, c.fd, sent, err)
 		// A temporary error occurs, append the data to outbound buffer,
 		// writing it back to the remote in the next round for LT mode.
 		if err == unix.EAGAIN {
@@ -221,6 +227,7 @@ loop:
 		}
 		return 0, err
 	}
+	vhook.Sys("c.writev", c, c.fd, sent, nil)
 	pos := len(bs)
 	if remaining -= sent; remaining > 0 {
 		for i := range bs {
@@ -296,6 +303,7 @@ func (c *conn) sendTo(buf []byte, addr unix.Sockaddr) (n int, err error) {
 		}
 	}()
 
+	vhook.Sys("c.sendto", c, c.fd, len(buf), nil)
 	if addr != nil {
 		return len(buf), unix.Sendto(c.fd, buf, 0, addr)
 	}
